@@ -127,6 +127,9 @@ func c20RemoteOne(c *core.Ctx, dir, base string, k c20RemoteCase) {
 }
 
 func c20RemoteRun(c *core.Ctx) {
+	if !c20Only("remote") {
+		return
+	}
 	srv := &c20RemoteServer{}
 	base, err := srv.start()
 	if err != nil {
